@@ -53,6 +53,12 @@ class GridModel(object):
         elif k == 'demote_block':
             self.blocks.remove(op[1])
             self.blocks.append(op[1])
+        elif k == 'demote_blocks':
+            # a list of names, possibly naming a block more than once (lists built from generators or boundary
+            # faces do): each name in turn goes to the end
+            for n in op[1]:
+                self.blocks.remove(n)
+                self.blocks.append(n)
         elif k == 'add_connection':
             self.cons.append((op[1], op[2]))
         elif k == 'delete_connection':
@@ -96,6 +102,8 @@ class GridModel(object):
                 ops.append(('delete_block', n))
                 if len(present) > 1:
                     ops.append(('demote_block', n))
+                    m = [x for x in present if x != n][0]
+                    ops.append(('demote_blocks', (n, m, n)))
         have = set(self.cons) | set((b, a) for a, b in self.cons)
         for a in present:
             for b in present:
